@@ -97,7 +97,7 @@ def randomRow (c : CRow) : Bool :=
   c.refAct.isNone
 
 /-- a row of the fragment that produces a node -/
-def nodeRowOk (c : CRow) : Bool := plainActionRow c || switchRow c || fixedRow c
+def nodeRowOk (c : CRow) : Bool := plainActionRow c || switchRow c || fixedRow c || randomRow c
 
 def rowOk (c : CRow) : Bool := nodeRowOk c || exitRow c || gotoRow c
 
